@@ -95,6 +95,66 @@ fn check_ids(ids: &[u8], big_endian: bool) -> CheckResult {
                 }
                 nt |= field.contains(&0) || want.len() < 4;
             }
+            // the ids are the same under a filter that keeps the message (its id sets contain the ids just read) ...
+            {
+                let cfg = dlt_core::filtering::DltFilterConfig {
+                    min_log_level: None,
+                    app_ids: Some(vec![got[2].clone(), "zz".to_string()]),
+                    ecu_ids: Some(vec![got[1].clone(), String::new(), "ECU1".to_string()]),
+                    context_ids: Some(vec![got[3].clone()]),
+                    app_id_count: 2,
+                    context_id_count: 1,
+                };
+                let pf = dlt_core::filtering::ProcessedDltFilterConfig::from(cfg);
+                let r = guard(|| dlt_message(&b, Some(&pf), true).map(|(rest, pm)| (rest.len(), pm))).map_err(|p| Violation::from_panic(&format!("dlt_message with a filter on {}", hex_short(&b)), &p))?;
+                match r {
+                    Ok((0, ParsedMessage::Item(mf))) => {
+                        let gotf = [
+                            mf.storage_header.as_ref().map(|s| s.ecu_id.clone()).unwrap_or_default(),
+                            mf.header.ecu_id.clone().unwrap_or_default(),
+                            mf.extended_header.as_ref().map(|e| e.application_id.clone()).unwrap_or_default(),
+                            mf.extended_header.as_ref().map(|e| e.context_id.clone()).unwrap_or_default(),
+                        ];
+                        for i in 0..4 {
+                            if gotf[i] != got[i] {
+                                return Err(viol!(format!("ids:{}:under-filter", names[i]), "{} bytes {} parsed as {:?} under a filter that keeps the message, {:?} without filter", names[i], hex_short(&ids[i * 4..i * 4 + 4]), gotf[i], got[i]));
+                            }
+                        }
+                    }
+                    other => return Err(viol!("ids:under-filter", "a filter whose sets contain the message's ids did not keep it: {}", short_dbg(&other))),
+                }
+            }
+            // ... and through the statistics scan, which decodes the same headers
+            {
+                struct Rec(Vec<[String; 4]>);
+                impl dlt_core::statistics::StatisticCollector for Rec {
+                    fn collect_statistic(&mut self, s: dlt_core::statistics::Statistic) -> Result<(), dlt_core::parse::DltParseError> {
+                        self.0.push([
+                            s.storage_header.as_ref().map(|h| h.ecu_id.clone()).unwrap_or_default(),
+                            s.standard_header.ecu_id.clone().unwrap_or_default(),
+                            s.extended_header.as_ref().map(|e| e.application_id.clone()).unwrap_or_default(),
+                            s.extended_header.as_ref().map(|e| e.context_id.clone()).unwrap_or_default(),
+                        ]);
+                        Ok(())
+                    }
+                }
+                let seen = guard(|| {
+                    let mut reader = dlt_core::read::DltMessageReader::with_capacity(65551, 65551, &b[..], true);
+                    let mut rec = Rec(vec![]);
+                    dlt_core::statistics::collect_statistics(&mut reader, &mut rec).map(|_| rec.0)
+                })
+                .map_err(|p| Violation::from_panic("collect_statistics on the ids message", &p))?;
+                match seen {
+                    Ok(v) if v.len() == 1 => {
+                        for i in 0..4 {
+                            if v[0][i] != got[i] {
+                                return Err(viol!(format!("ids:{}:statistics", names[i]), "{} bytes {} seen as {:?} by the statistics scan, {:?} by the parser", names[i], hex_short(&ids[i * 4..i * 4 + 4]), v[0][i], got[i]));
+                            }
+                        }
+                    }
+                    other => return Err(viol!("ids:statistics", "the statistics scan of one message saw {}", short_dbg(&other))),
+                }
+            }
             // "with fewer than n bytes available it reports incomplete": the buffer ends inside each of the four id
             // fields in turn (0..3 of its bytes present), without and with junk in front of the storage header; any
             // hint must not exceed the bytes that are missing
